@@ -32,10 +32,15 @@ func VerifC16Report() {
 	frAllow.formatErr = true
 	frAllow.noParse = true
 	frAllow.writeErr = true
+	// STDOUTERR=1: --print-only with a standard output that may refuse a file's bytes
+	frAllow.stdoutErr = nd.Param("STDOUTERR", 0) == 1
 	frEnv = frNewEnv(nfiles, []int{1})
 	e := frEnv
 	c16FindErr = make([]frTri, nfiles)
 	e.opts = frSymOpts()
+	if frAllow.stdoutErr {
+		e.opts.Print, e.opts.Diff, e.opts.Verbose = true, false, false
+	}
 	e.opts.Args.Patterns = nil
 	for k := 0; k < nfiles; k++ {
 		e.opts.Args.Patterns = append(e.opts.Args.Patterns, fmt.Sprintf("d%d", k))
@@ -62,10 +67,11 @@ func VerifC16Report() {
 		named(fmt.Sprintf("file %d cannot be rewritten", i), e.replaceErr[i][0], e.names[i], "bad metavariable")
 		named(fmt.Sprintf("file %d cannot be printed", i), e.formatErr[i], e.names[i], "invalid AST")
 		named(fmt.Sprintf("file %d cannot be written", i), e.writeErr[i], e.names[i], "no space left on device")
+		named(fmt.Sprintf("file %d cannot be printed to standard output", i), e.stdoutErr[i], "", "no space left on device")
 		if e.parses[i].set {
 			named(fmt.Sprintf("file %d: result does not parse", i), frTri{set: true, val: !e.parses[i].val}, e.names[i], "expected declaration")
 		}
-		for _, t := range []frTri{c16FindErr[i], e.readErr[i], e.parseErr[i], e.replaceErr[i][0], e.formatErr[i], e.writeErr[i]} {
+		for _, t := range []frTri{c16FindErr[i], e.readErr[i], e.parseErr[i], e.replaceErr[i][0], e.formatErr[i], e.writeErr[i], e.stdoutErr[i]} {
 			if t.set {
 				anyFail = nd.Or(anyFail, t.val)
 			}
@@ -88,10 +94,14 @@ func ReplayC16Report() {
 		}
 	}
 	s := frScenarioFromModel(nfiles, []int{1})
+	if nd.Param("STDOUTERR", 0) == 1 {
+		s.print, s.diff, s.verbose = true, false, false
+	}
 	for i := 0; i < nfiles; i++ {
 		s.missing = append(s.missing, frBit(fmt.Sprintf("findErr%d", i)))
 		s.unreadable = append(s.unreadable, frBit(fmt.Sprintf("readErr%d", i)))
 		s.readonly = append(s.readonly, frBit(fmt.Sprintf("writeErr%d", i)))
+		s.stdoutFail = append(s.stdoutFail, frBit(fmt.Sprintf("stdoutErr%d", i)))
 	}
 	s.perDir = true
 	s.frCheckNative(s.runNative())
